@@ -285,6 +285,61 @@ Theorem C11_run_fires_wholeop :
 Proof. intros U ND HB s tr Hr t n. apply (gen_run_fires U ND HB s tr t n Hr). Qed.
 Print Assumptions C11_run_fires_wholeop.
 
+(* Callbacks that re-arm their node (await_barrier(node) from inside the callback of that node) and reuse of a
+   node object after its callback: once the callback has started the node belongs to the user again, so
+   this is a new registration.  [gen_w_run_rearm t flag] = run() of agent t where the callbacks of the
+   nodes with [flag n] re-arm their node: a reachable state again, so every theorem above applies to it
+   (in particular the trace automaton: the library touches the node again only after the new
+   registration, and the new registration is called back at most once, after its own grace period). *)
+Theorem C11_rearm_is_registration_wholeop :
+  forall U, NoDup U -> few U -> forall s tr, reach_wo U s tr ->
+  forall t flag s' evs, In t U -> gen_w_run_rearm t flag s = Ok (s', evs) ->
+    reach_wo U s' (tr ++ evs) /\ trace_ok (tr ++ evs).
+Proof.
+  intros U ND HB s tr Hr t flag s' evs Ht H.
+  pose proof (run_rearm_reach U t flag s tr s' evs Hr Ht H) as Hr'. split; [exact Hr'|].
+  apply (gen_trace_ok U ND HB s' _ Hr').
+Qed.
+Print Assumptions C11_rearm_is_registration_wholeop.
+
+(* non-vacuity: one agent, nodes 0 and 1 both pending with target 4; run() at counter 4 calls both back,
+   the callback of node 0 re-arms it: node 0 is pending again with target 6, node 1 is free; three more
+   quiescent states and a run() call node 0 back a second time *)
+Definition ex_rearm_pre : list (tid * call) :=
+  [(0, COnline); (0, CAwait 0); (0, CAwait 1); (0, CQsCall); (0, CQsCall); (0, CQsCall)]%nat.
+Definition ex_rearm_post : list (tid * call) := [(0, CQsCall); (0, CQsCall); (0, CQsCall); (0, CRun)]%nat.
+
+Definition is_cb00 (e : wev) : bool := match e with WCb O O => true | _ => false end.
+
+Example C11_example_rearm :
+  exists s tr s1 e1 s2 tr2,
+    reach_wo [0]%nat s tr /\ pending (wa s 0%nat) = [0; 1]%nat /\ ctr (wd s) = 4 /\
+    gen_w_run_rearm 0%nat (Nat.eqb 0) s = Ok (s1, e1) /\
+    e1 = [WNode 0; WNode 0; WNode 0; WNode 0; WCb 0 0; WNode 1; WNode 1; WNode 1; WNode 1; WCb 1 0;
+          WReg 0 0; WNode 0; WNode 0; WNode 0] /\
+    pending (wa s1 0%nat) = [0%nat] /\ wtarget s1 0%nat = 6 /\ wtarget s1 1%nat = 0 /\
+    reach_wo [0]%nat s2 tr2 /\ length (filter is_cb00 tr2) = 2%nat /\ pending (wa s2 0%nat) = [].
+Proof.
+  destruct (gen_w_run_ops ex_rearm_pre w0 []) as [[s tr] stop] eqn:E.
+  assert (Hin : forall ops : list (tid * call), (forall t c, In (t, c) ops -> t = 0%nat) -> forall t c, In (t, c) ops -> In t [0%nat]).
+  { intros ops H t c Hi. rewrite (H t c Hi). now left. }
+  assert (Hr : reach_wo [0]%nat s tr).
+  { apply (run_ops_reach [0]%nat ex_rearm_pre w0 [] s tr stop (rwo_init _)); [|exact E].
+    apply Hin. intros t c H. cbn in H. repeat (destruct H as [H|H]; [now inversion H|]). destruct H. }
+  destruct (gen_w_run_rearm 0%nat (Nat.eqb 0) s) as [[s1 e1]| | | |] eqn:E1.
+  2-5: (vm_compute in E; inversion E; subst s; vm_compute in E1; discriminate).
+  pose proof (run_rearm_reach [0]%nat 0%nat (Nat.eqb 0) s tr s1 e1 Hr (or_introl eq_refl) E1) as Hr1.
+  destruct (gen_w_run_ops ex_rearm_post s1 (tr ++ e1)) as [[s2 tr2] stop2] eqn:E2.
+  assert (Hr2 : reach_wo [0]%nat s2 tr2).
+  { apply (run_ops_reach [0]%nat ex_rearm_post s1 (tr ++ e1) s2 tr2 stop2 Hr1); [|exact E2].
+    apply Hin. intros t c H. cbn in H. repeat (destruct H as [H|H]; [now inversion H|]). destruct H. }
+  exists s, tr, s1, e1, s2, tr2.
+  vm_compute in E. inversion E; subst s tr stop. clear E.
+  vm_compute in E1. inversion E1; subst s1 e1. clear E1.
+  vm_compute in E2. inversion E2; subst s2 tr2 stop2. clear E2.
+  repeat split; try assumption; try reflexivity.
+Qed.
+
 (* ... and the further invariants used for liveness ([FAll] = FCore /\ FGhost /\ FLive, Qs/QsFgLive.v): when
    agents_to_ack is 0 and somebody is online, some thread holds the period deferred or is on its way to
    restart it; [desired] covers every node target and every quiescent_barrier target in its loop; the
